@@ -216,7 +216,10 @@ func c07Scenario(c c07Case) *vsched.Scenario {
 		if len(reads) != len(c.RS) {
 			bad("C07:not-all-read", "%d of %d solicitations were read by the listener", len(reads), len(c.RS))
 		}
-		exp, _ := ref.RA(want, &ref.State{Name: "eth0", MAC: a.mac.String(), Forwarding: true}, c07Epoch)
+		expFor := func(conn int) *ndp.RouterAdvertisement {
+			ra, _ := ref.RA(want, &ref.State{Name: "eth0", MAC: a.macOf(conn).String(), Forwarding: true}, c07Epoch)
+			return ra
+		}
 		var uni, multi []wrec
 		for _, w := range a.Writes() {
 			if c.UnicastOnly && w.Dst.IsMulticast() {
@@ -232,7 +235,7 @@ func c07Scenario(c c07Case) *vsched.Scenario {
 			} else {
 				uni = append(uni, w)
 			}
-			if w.Err == nil && !reflect.DeepEqual(w.RA, exp) {
+			if exp := expFor(w.Conn); w.Err == nil && !reflect.DeepEqual(w.RA, exp) {
 				bad("C07:payload", "RA to %s at %s differs from the configured RA: %+v want %+v", w.Dst, w.T, w.RA, exp)
 			}
 		}
